@@ -10,8 +10,8 @@
                p = passthrough, o = appends one output (id 100+position) to whatever the inner handler returned,
                r = copies the outputs into a fresh slice (empty but NON-NIL when there are none);
                lower case = router level (Router.AddMiddleware), upper case = handler level (Handler.AddMiddleware)
-        script <self>.<result>.<pub>   self: - a n Aw Al Nw Nl   result: r<k> q<k> Q<k> z0 e<k> c<k> d<k> w<k> x<k> u<k> j<k> p<x>
-               pub: ok err panic rej<k>
+        script <self>.<result>.<pub>   self: - a n Aw Al Nw Nl   result: r<k> s<k> S<k> q<k> Q<k> z0 e<k> c<k> d<k> w<k> x<k> u<k> j<k> p<x>
+               pub: ok err errc errw errd erru panic rej<k>
                (Aw/Al/Nw/Nl: the handler starts a helper goroutine that Acks/Nacks the message at the moment the Router
                 settles it the other way; w/l = what the helper's call returned, recorded by the harness – the model checks)
                (r0 = nil slice, z0 = empty NON-NIL slice; e = plain error, c = context.Canceled, both with k outputs
@@ -125,6 +125,8 @@ def parseResult (s : String) : Option (Result Nat) :=
       match c with
       | 'r' => some (.returns (List.range k) false)
       | 'z' => if k = 0 then some (.returns [] false) else none
+      | 's' => some (.returns (List.range k) false)   -- different objects, identical content, empty UUID
+      | 'S' => some (.returns (List.range k) false)   -- Message.Copy()s of one message
       | 'q' => some (.returns (List.range k) false)   -- outputs carrying an already cancelled context
       | 'Q' => some (.returns (List.range k) false)   -- outputs carrying a context whose deadline has passed
       | 'e' => some (.returns (List.range k) true)
@@ -141,6 +143,9 @@ def parseResult (s : String) : Option (Result Nat) :=
 def parsePub (s : String) : Option PubSpec :=
   match s with
   | "ok" => some (.fixed .accept) | "err" => some (.fixed .error) | "panic" => some (.fixed .panic)
+  -- errors of other kinds: context.Canceled, fmt-wrapped Canceled, pkg/errors-wrapped DeadlineExceeded, custom type
+  | "errc" => some (.fixed .error) | "errw" => some (.fixed .error) | "errd" => some (.fixed .error)
+  | "erru" => some (.fixed .error)
   | _ =>
     if s.startsWith "rej" then
       let ds := (s.drop 3).toString
